@@ -2,6 +2,7 @@ package main
 
 import (
 	"fmt"
+	"go/token"
 	"sort"
 	"strings"
 
@@ -354,8 +355,10 @@ func ruleLatchedWriterRetried(p *Prog, r *Report, rule string) {
 		"flushManifest appends through s.manifest (journal.Writer latches its first write error in w.err; Next/Flush then fail forever); neither flushManifest nor session.commit replaces or resets s.manifest on failure, and compactionCommit retries session.commit without bound while holding compCommitLk", p.Pos(fm.Pos()), nil)
 }
 
-// recoversAfterFlushFailure: in session.commit, after flushManifest returned an error, a path
-// reaches newManifest / a store to s.manifest before returning.
+// recoversAfterFlushFailure: session.commit either falls back to a fresh manifest right after
+// flushManifest failed, or remembers the failure in a session field (stored from the error of
+// flushManifest) that, when set, makes the next commit switch to a fresh manifest (newManifest)
+// before it appends again.
 func recoversAfterFlushFailure(commit *ssa.Function) bool {
 	errVal := mErrOfCall(fFlushMan)
 	fix := orPred(evStoreField("leveldb.session", "manifest"), evCall(fJReset), evCall(fNewMan))
@@ -363,7 +366,8 @@ func recoversAfterFlushFailure(commit *ssa.Function) bool {
 	if len(starts) == 0 {
 		return false
 	}
-	return findPath(starts, nil, nil, fix) != nil && func() bool {
+	// (a) immediate fallback on the error edge
+	if findPath(starts, onlyWhenErr(errVal), nil, fix) != nil {
 		for _, b := range commit.Blocks {
 			if cond, _, ok := ifCond(b); ok {
 				if x, _, ok := condNilTest(cond); ok && errVal(testedValue(x)) {
@@ -371,8 +375,33 @@ func recoversAfterFlushFailure(commit *ssa.Function) bool {
 				}
 			}
 		}
+	}
+	// (b) remembered failure: a session bool field stored from `err != nil` of flushManifest
+	var flag string
+	instrs(commit, func(_ *ssa.BasicBlock, _ int, in ssa.Instruction) {
+		st, ok := in.(*ssa.Store)
+		if !ok {
+			return
+		}
+		t, f, _, ok := fieldOf(st.Addr)
+		if !ok || t != "leveldb.session" {
+			return
+		}
+		if b, ok := st.Val.(*ssa.BinOp); ok && b.Op == token.NEQ && isNilConst(b.Y) && (errVal(b.X) || errVal(testedValue(b.X))) {
+			flag = f
+		}
+	})
+	if flag == "" {
 		return false
-	}()
+	}
+	// with the flag set, every path from entry to flushManifest passes newManifest first
+	flagSet := assumeBool(func(v ssa.Value) (bool, bool) {
+		if isFieldLoad(v, "leveldb.session", flag) {
+			return true, true
+		}
+		return false, false
+	})
+	return findPath(entryPoint(commit), flagSet, evCall(fNewMan), evCall(fFlushMan)) == nil
 }
 
 // C09.7: background loops acknowledge in-flight and queued commands and call closeW.Done on
